@@ -1,6 +1,11 @@
 import TTModel.C19_CLI
+import TTGen.C19_Dispatch
 import TTProofs.Lemmas.C19_CLI
+import TTProofs.Lemmas.C19_Global
+import TTProofs.Lemmas.C19_Covers
+import TTProofs.Lemmas.C19_Meanfield
 import Mathlib.Data.List.Nodup
+import Mathlib.Algebra.BigOperators.Group.List.Basic
 /-!
 # C19 — the logic of the CLI: Jacobian collection and the constraint → transform rewriting
 
@@ -124,40 +129,265 @@ example : (match createJacobians (ν := Int)
     | _ => false) = true := by
   decide +kernel
 
+/-! ## the tables read from the source
+
+`TTGen/C19_Dispatch.lean` is regenerated on every run from `cli/utils.py:make_unconstrained`,
+`cli/advi.py:create_meanfield` + `apply_*_transform` and the builders `build_hmc/mcmc/advi`. -/
+
+/-- every code shape was recognised by the translator -/
+theorem translator_recognised : TTGen.C19.recognised = true := by decide
+
+/-- the constraint-dispatch table of `make_unconstrained` as read from the source -/
+theorem source_unconstrain_table : TTGen.C19.unconstrain = Dispatch.reference := by decide
+
+/-- … and of `create_meanfield` (through `apply_*_transform`) -/
+theorem source_meanfield_table : TTGen.C19.meanfield = Dispatch.reference := by decide
+
+/-- in every row the initial value of the child is computed with the inverse of the very transform
+that is written into the specification (so `T(child) = initial value`) -/
+theorem inverse_matches_declared :
+    ∀ t ∈ [TTGen.C19.unconstrain, TTGen.C19.meanfield],
+      ∀ r ∈ [t.unit, t.lower0, t.lowerPos, t.simplex], r.inverse = r.transform := by decide
+
+/-- the sets torch's transforms map onto (trusted facts about torch.distributions) -/
+inductive Range where
+  | unitInterval      -- (0, 1)
+  | positive          -- (0, ∞)
+  | shift             -- ℝ + loc (composed with what follows)
+  | simplex
+  deriving DecidableEq, Repr
+
+def rangeOf (transform : String) : Option Range :=
+  if transform = sigmoidName then some .unitInterval
+  else if transform = expName then some .positive
+  else if transform = affineName then some .shift
+  else if transform = stickName then some .simplex
+  else none
+
+/-- **the transform's range is the annotated set**, row by row of the tables read from the source:
+`@lower 0, @upper 1` ↦ (0,1); `@lower ≤ 0` ↦ (0,∞); `@lower c > 0` ↦ shift by `c` of what the
+lower-bound-0 row gives, i.e. (c,∞); `@simplex` ↦ the simplex -/
+theorem dispatch_ranges :
+    ∀ t ∈ [TTGen.C19.unconstrain, TTGen.C19.meanfield],
+      rangeOf t.unit.transform = some .unitInterval ∧ rangeOf t.lower0.transform = some .positive ∧
+      rangeOf t.lowerPos.transform = some .shift ∧ rangeOf t.simplex.transform = some .simplex := by
+  decide
+
+/-- the post-processing of the Jacobian list in the three builders, as read from the source:
+`"tree"` is appended for a clock with ratio heights, `coalescent.theta` is removed for a piecewise
+coalescent in the centred parameterisation only (F61) -/
+theorem source_post :
+    TTGen.C19.postHmc = ⟨true, .centeredOnly⟩ ∧ TTGen.C19.postMcmc = ⟨true, .centeredOnly⟩ ∧
+    TTGen.C19.postAdvi = ⟨true, .centeredOnly⟩ := by decide
+
+/-! ## the list finally handed to `joint.jacobian` -/
+
+/-- **jacobians_exactly_once, lifted through the post-processing**: with pairwise distinct ids of the
+TransformedParameter literals, none of them called `tree`, the list the builder hands to
+`joint.jacobian` (i) has no repetition and (ii) consists exactly of: the id of every included
+TransformedParameter literal occurring anywhere in the specification — except `coalescent.theta`
+when the builder removes it — and `"tree"` when the clock/ratio condition holds. -/
+theorem final_jacobians_exactly_once (p : Post) (f : Flags) (j : Json ν) (l : List (Json ν))
+    (h : finalJacobians p f j = some l)
+    (hdistinct : ((subvalues j).filterMap tpIdOf).Nodup)
+    (htree : Json.str "tree" ∉ (subvalues j).filterMap tpIdOf) :
+    l.Nodup ∧ ∀ x, x ∈ l ↔
+      ((x ∈ (subvalues j).filterMap jacIdOf ∨ (p.appendTree && f.clock && f.ratio) = true ∧ x = .str "tree") ∧
+       ((p.removes f) = true → isStr "coalescent.theta" x = false)) := by
+  unfold finalJacobians at h
+  cases hc : createJacobians j with
+  | none => simp [hc] at h
+  | some ids =>
+    simp only [hc] at h
+    have hids := jacobians_exactly_once j ids hc
+    have hnd : ids.Nodup := jacobians_nodup j ids hc hdistinct
+    have htree' : Json.str "tree" ∉ ids := by
+      intro hm
+      rw [hids] at hm
+      exact htree ((filterMap_sublist_of_refines _ _ jacIdOf_refines _).subset hm)
+    -- the list after the optional append
+    have key : ∀ l1 : List (Json ν),
+        l1 = (if (p.appendTree && f.clock && f.ratio) = true then ids ++ [Json.str "tree"] else ids) →
+        l1.Nodup ∧ ∀ x, x ∈ l1 ↔ (x ∈ ids ∨ (p.appendTree && f.clock && f.ratio) = true ∧ x = .str "tree") := by
+      intro l1 hl1
+      by_cases ht : (p.appendTree && f.clock && f.ratio) = true
+      · simp only [ht, if_true] at hl1
+        subst hl1
+        refine ⟨?_, by intro x; simp [ht]⟩
+        rw [List.nodup_append]
+        exact ⟨hnd, by simp, by intro a ha b hb; simp at hb; subst hb; intro hab; subst hab; exact htree' ha⟩
+      · simp only [ht] at hl1
+        subst hl1
+        exact ⟨hnd, by intro x; simp [ht]⟩
+    obtain ⟨hnd1, hmem1⟩ := key _ rfl
+    by_cases hr : p.removes f = true
+    · simp only [hr, if_true] at h
+      refine ⟨hnd1.sublist (listRemove_sublist _ _ _ h), ?_⟩
+      intro x
+      rw [mem_listRemove _ _ _ hnd1 h x, hmem1 x, ← hids]
+      simp [hr]
+    · simp only [hr] at h
+      simp only [Bool.false_eq_true, if_false, Option.some.injEq] at h
+      subst h
+      refine ⟨hnd1, ?_⟩
+      intro x
+      rw [hmem1 x, ← hids]
+      simp [hr]
+
+/-- the object appended by the builders lists `joint` first, then exactly that list -/
+theorem joint_jacobian_lists (l : List (Json ν)) :
+    lookup "distributions" (match jointJacobian l with | .obj kvs => kvs | _ => []) =
+      some (.arr (.str "joint" :: l)) := by
+  simp [jointJacobian, lookup]
+
+/-- **bookkeeping half of the density identity.**  `lj i` is the log-Jacobian of the transform with id
+`i` (its analytic correctness is C07), `J` the constrained joint density.  The density the sampler
+gets is `J + Σ_{i listed} lj i`.  If every transform under a prior (`needed`) is listed or has an
+identically zero log-Jacobian (the AffineTransform(scale 1) exclusion), and the listed ids are
+distinct, then the sampler density is the constrained joint plus the log-Jacobian of each needed
+transform EXACTLY ONCE, plus the terms of listed transforms under which no prior is placed
+(an implicit flat prior on the constrained scale). -/
+theorem sampler_density_bookkeeping {M : Type} [AddCommMonoid M] (J : M) (lj : String → M)
+    (listed needed : List String) (hl : listed.Nodup) (hn : needed.Nodup)
+    (hcover : ∀ i ∈ needed, i ∈ listed ∨ lj i = 0) :
+    J + (listed.map lj).sum =
+      J + (needed.map lj).sum + ((listed.filter (fun i => decide (i ∉ needed))).map lj).sum := by
+  have hsplit : (listed.map lj).sum =
+      ((listed.filter (fun i => decide (i ∈ needed))).map lj).sum +
+      ((listed.filter (fun i => decide (i ∉ needed))).map lj).sum := by
+    clear hl hcover
+    induction listed with
+    | nil => simp
+    | cons a l ih =>
+      by_cases ha : a ∈ needed
+      · simp [List.filter_cons, ha, ih, add_assoc]
+      · simp [List.filter_cons, ha, ih, add_left_comm]
+  have hneeded : (needed.map lj).sum = ((listed.filter (fun i => decide (i ∈ needed))).map lj).sum := by
+    -- both sides sum lj over the needed ids that are listed; the unlisted needed ids contribute 0
+    have h1 : (needed.map lj).sum = ((needed.filter (fun i => decide (i ∈ listed))).map lj).sum := by
+      clear hn hsplit
+      induction needed with
+      | nil => simp
+      | cons a l ih =>
+        have ih' := ih (fun i hi => hcover i (List.mem_cons_of_mem _ hi))
+        by_cases ha : a ∈ listed
+        · simp only [List.filter_cons, ha, decide_true, if_true, List.map_cons, List.sum_cons]
+          rw [ih']
+        · have h0 : lj a = 0 := (hcover a List.mem_cons_self).resolve_left ha
+          simp only [List.filter_cons, ha, decide_false, Bool.false_eq_true, if_false, List.map_cons,
+            List.sum_cons, h0, zero_add]
+          rw [ih']
+    rw [h1]
+    apply List.Perm.sum_eq
+    apply List.Perm.map
+    rw [List.perm_ext_iff_of_nodup (hn.filter _) (hl.filter _)]
+    intro a
+    simp [List.mem_filter, and_comm]
+  rw [hsplit, hneeded, add_assoc]
+
 /-! ## make_unconstrained
 
-`unconstrain_covers` is stated case by case, as the exact value `make_unconstrained` computes for a
-`Parameter` dict under each kind of annotation (the transform names are torch's: Sigmoid has range
-(0,1), Exp (0,∞), Affine(loc,1)∘Exp (loc,∞), StickBreaking the simplex — the annotated sets). -/
+Global statement first, then what it means for one parameter, then the exact values case by case. -/
+
+/-- **unconstrain_global**: `make_unconstrained` on a whole specification replaces every `Parameter`
+literal it reaches (any depth, inside lists, under any key; it does not look inside a `Parameter`
+literal) by its `paramCase` image, changes nothing else, and reports — in document order — the
+concatenation of what `paramCase` reports for each of them. -/
+theorem unconstrain_global (d : Dispatch) (j : Json ν) (r : Unc ν) (h : makeUnconstrained d j = some r) :
+    (∀ kvs ∈ topParams j, (paramCase d kvs).isSome = true) ∧ r.json = mapTop (ucJson d) j ∧
+    r.unres = (topParams j).flatMap (ucUnres d) ∧ r.params = (topParams j).flatMap (ucParams d) :=
+  makeUnconstrained_global d j r h
+
+/-- **unconstrain_covers** (one statement over the Json tree): if `make_unconstrained` returns,
+then for EVERY `Parameter` literal reached anywhere in the document
+* if a row of the dispatch table applies to its annotation (unit interval, lower bound, simplex), its
+  image in the output is a `TransformedParameter` carrying that row's transform over a child, and
+  what is handed to the sampler for it is a non-empty list of plain `Parameter`s free of any
+  constraint annotation;
+* otherwise (fixed `@lower == @upper`, or no annotation) its image is the literal itself;
+and the output is the input with exactly these replacements. -/
+theorem unconstrain_covers (d : Dispatch) (j : Json ν) (r : Unc ν) (h : makeUnconstrained d j = some r) :
+    r.json = mapTop (ucJson d) j ∧
+    ∀ kvs ∈ topParams j, ∃ u, paramCase d kvs = some u ∧ ucJson d kvs = u.json ∧
+      (∀ row, rowOf d kvs = some row →
+        IsTransformed row u.json ∧ u.unres ≠ [] ∧ ∀ c ∈ u.unres, CleanParam c) ∧
+      (rowOf d kvs = none → u.json = .obj kvs) := by
+  have hg := makeUnconstrained_global d j r h
+  refine ⟨hg.2.1, ?_⟩
+  intro kvs hk
+  have hs := hg.1 kvs hk
+  cases hp : paramCase d kvs with
+  | none => simp [hp] at hs
+  | some u =>
+    refine ⟨u, rfl, by simp [ucJson, hp], ?_, ?_⟩
+    · intro row hr; exact paramCase_covers d kvs u row hp hr
+    · intro hr; exact paramCase_untouched d kvs u hp hr
+
+/-- everything handed to the sampler is an unconstrained plain parameter or an unannotated/fixed
+parameter passed through as it is: no annotated parameter reaches the sampler un-rewritten -/
+theorem unconstrain_sampler_gets_clean (d : Dispatch) (j : Json ν) (r : Unc ν)
+    (h : makeUnconstrained d j = some r) :
+    ∀ c ∈ r.unres, CleanParam c ∨ ∃ kvs ∈ topParams j, c = .obj kvs ∧ rowOf d kvs = none := by
+  have hg := makeUnconstrained_global d j r h
+  intro c hc
+  rw [hg.2.2.1, List.mem_flatMap] at hc
+  obtain ⟨kvs, hk, hcu⟩ := hc
+  have hs := hg.1 kvs hk
+  cases hp : paramCase d kvs with
+  | none => simp [hp] at hs
+  | some u =>
+    simp only [ucUnres, hp] at hcu
+    cases hr : rowOf d kvs with
+    | some row => exact Or.inl ((paramCase_covers d kvs u row hp hr).2.2 c hcu)
+    | none =>
+      right
+      refine ⟨kvs, hk, ?_, hr⟩
+      -- untouched: the reported object is the literal itself (or nothing, for a fixed parameter)
+      unfold paramCase at hp
+      unfold rowOf at hr
+      split at hp
+      · rename_i lo up hlo hup
+        simp only [hlo, hup] at hr
+        by_cases hcnd : (isLo0 lo && isUp1 up) = true
+        · simp [hcnd] at hr
+        · simp only [hcnd, Bool.false_eq_true, if_false] at hp
+          split at hp
+          · cases hp; simp at hcu
+          · cases hp
+      · rename_i lo hlo hup
+        simp only [hlo, hup] at hr
+        cases lo with
+        | num x => simp only at hr; split at hr <;> cases hr
+        | _ => simp at hp
+      · rename_i hlo
+        simp only [hlo] at hr
+        by_cases hs' : simplexFlag kvs = true
+        · simp [hs'] at hr
+        · simp only [hs', Bool.false_eq_true, if_false] at hp
+          split at hp
+          · cases hp; simpa using hcu
+          · cases hp
+
+/-! exact values, for the table read from the source (`Dispatch.reference`) -/
+
+theorem elemInv_sigmoid : elemInv (ν := ν) sigmoidName = some CliNum.logit := by
+  simp [elemInv]
+theorem elemInv_exp : elemInv (ν := ν) expName = some CliNum.log := by
+  simp [elemInv, expName, sigmoidName]
 
 /-- **unit interval**: `@lower: 0, @upper: 1`, initial value a list → `SigmoidTransform` over a
 fresh `id.unres` carrying `logit(initial)`; `id` is reported, the child goes to the sampler. -/
-theorem unconstrain_covers_unit_interval (kvs : List (String × Json ν)) (lo up : ν) (i : String)
+theorem unconstrain_covers_unit_interval (kvs : List (String × Json ν)) (lo up : Json ν) (i : String)
     (xs : List (Json ν))
-    (hlo : lookup "@lower" kvs = some (.num lo)) (hup : lookup "@upper" kvs = some (.num up))
-    (h0 : CliNum.isZero lo = true) (h1 : CliNum.isOne up = true)
+    (hlo : lookup "@lower" kvs = some lo) (hup : lookup "@upper" kvs = some up)
+    (hunit : (isLo0 lo && isUp1 up) = true)
     (hid : lookup "id" kvs = some (.str i)) (ht : lookup "tensor" kvs = some (.arr xs)) :
-    paramCase kvs =
+    paramCase Dispatch.reference kvs =
       (mapNum CliNum.logit (.arr xs)).map fun t =>
         let x : Json ν := .obj [("id", .str (i ++ ".unres")), ("type", .str "Parameter"), ("tensor", t)]
-        ⟨.obj (rewrittenAs kvs "torch.distributions.SigmoidTransform" x []), [x], [.str i]⟩ := by
-  simp only [paramCase, hlo, hup, h0, h1, Bool.and_self, if_true, sigmoidCase, childOf, idPlus, hid, ht]
-  cases hm : mapNum CliNum.logit (.arr xs) <;> simp [hm, bind, Option.bind, pure]
-
-/-- **unit interval, `full` form** (`tensor` a scalar replicated `full` times): the child keeps the
-`full` shape and carries `logit(scalar)`; `full` is removed from the parent. -/
-theorem unconstrain_covers_unit_interval_full (kvs : List (String × Json ν)) (lo up v : ν) (i : String)
-    (full : Json ν)
-    (hlo : lookup "@lower" kvs = some (.num lo)) (hup : lookup "@upper" kvs = some (.num up))
-    (h0 : CliNum.isZero lo = true) (h1 : CliNum.isOne up = true)
-    (hid : lookup "id" kvs = some (.str i)) (ht : lookup "tensor" kvs = some (.num v))
-    (hf : lookup "full" kvs = some full) :
-    paramCase kvs =
-      let x : Json ν := .obj [("id", .str (i ++ ".unres")), ("type", .str "Parameter"),
-                               ("tensor", .num (CliNum.logit v)), ("full", full)]
-      some ⟨.obj (rewrittenAs kvs "torch.distributions.SigmoidTransform" x ["full"]), [x], [.str i]⟩ := by
-  simp [paramCase, hlo, hup, h0, h1, sigmoidCase, childOf, idPlus, hid, ht, hf, hasKey, mapNum,
-    scalarOnly, bind, Option.bind, pure]
+        ⟨.obj (rewrittenAs kvs sigmoidName x []), [x], [.str i]⟩ := by
+  simp only [paramCase, hlo, hup, hunit, if_true, sigmoidCase, idPlus, hid, ht, Dispatch.reference, elemInv_sigmoid, childOf]
+  cases hm : mapNum CliNum.logit (.arr xs) <;> simp [hm, bind, Option.bind, pure, Dispatch.reference]
 
 /-- **lower bound 0** (`@lower` not positive, no `@upper`), plain initial value → `ExpTransform`
 over `id.unres` carrying `log(initial)`. -/
@@ -166,25 +396,39 @@ theorem unconstrain_covers_positive (kvs : List (String × Json ν)) (lo : ν) (
     (hpos : CliNum.pos lo = false)
     (hid : lookup "id" kvs = some (.str i)) (ht : lookup "tensor" kvs = some tensor)
     (hf : lookup "full" kvs = none) (hfl : lookup "full_like" kvs = none) :
-    paramCase kvs =
+    paramCase Dispatch.reference kvs =
       (mapNum CliNum.log tensor).map fun t =>
         let x : Json ν := .obj [("id", .str (i ++ ".unres")), ("type", .str "Parameter"), ("tensor", t)]
-        ⟨.obj (rewrittenAs kvs "torch.distributions.ExpTransform" x []), [x], [.str i]⟩ := by
-  simp only [paramCase, hlo, hup, hpos, expCase, childOf, idPlus, hid, ht, hasKey, hf, hfl]
-  cases hm : mapNum CliNum.log tensor <;> simp [hm, bind, Option.bind, pure]
+        ⟨.obj (rewrittenAs kvs expName x []), [x], [.str i]⟩ := by
+  simp only [paramCase, hlo, hup, hpos, expCase, idPlus, hid, ht, Dispatch.reference, elemInv_exp, childOf, hasKey, hf, hfl]
+  cases hm : mapNum CliNum.log tensor <;> simp [hm, bind, Option.bind, pure, Dispatch.reference]
 
-/-- **lower bound 0, `full` form** -/
+/-- **lower bound 0, `full` form** (`tensor` a scalar replicated `full` times): the child keeps the
+`full` shape and carries `log(scalar)`; `full` is removed from the parent. -/
 theorem unconstrain_covers_positive_full (kvs : List (String × Json ν)) (lo v : ν) (i : String) (full : Json ν)
     (hlo : lookup "@lower" kvs = some (.num lo)) (hup : lookup "@upper" kvs = none)
     (hpos : CliNum.pos lo = false)
     (hid : lookup "id" kvs = some (.str i)) (ht : lookup "tensor" kvs = some (.num v))
     (hf : lookup "full" kvs = some full) :
-    paramCase kvs =
+    paramCase Dispatch.reference kvs =
       let x : Json ν := .obj [("id", .str (i ++ ".unres")), ("type", .str "Parameter"),
                                ("tensor", .num (CliNum.log v)), ("full", full)]
-      some ⟨.obj (rewrittenAs kvs "torch.distributions.ExpTransform" x ["full"]), [x], [.str i]⟩ := by
+      some ⟨.obj (rewrittenAs kvs expName x ["full"]), [x], [.str i]⟩ := by
   simp [paramCase, hlo, hup, hpos, expCase, childOf, idPlus, hid, ht, hf, hasKey, mapNum, scalarOnly,
-    bind, Option.bind, pure]
+    bind, Option.bind, pure, Dispatch.reference, elemInv_exp]
+
+/-- **simplex** (`@simplex` truthy, initial value a list): `StickBreakingTransform` over `id.unres`
+carrying the stick-breaking inverse of the initial vector. -/
+theorem unconstrain_covers_simplex (kvs : List (String × Json ν)) (i : String) (xs : List (Json ν)) (vec : List ν)
+    (hlo : lookup "@lower" kvs = none) (hs : simplexFlag kvs = true)
+    (hid : lookup "id" kvs = some (.str i)) (ht : lookup "tensor" kvs = some (.arr xs))
+    (hv : numList xs = some vec) (hf : lookup "full" kvs = none) :
+    paramCase Dispatch.reference kvs =
+      let x : Json ν := .obj [("id", .str (i ++ ".unres")), ("type", .str "Parameter"),
+                               ("tensor", .arr ((CliNum.stickInv vec).map .num))]
+      some ⟨.obj (delKey "tensor" (setKey "x" x (setKey "transform" (.str stickName)
+              (setKey "type" (.str "TransformedParameter") kvs)))), [x], [.str i]⟩ := by
+  simp [paramCase, hlo, hs, simplexCase, simplexVec, idPlus, hid, ht, hv, hf, hasKey, Dispatch.reference]
 
 /-- **positive lower bound** `@lower: c > 0`: `AffineTransform(loc = c, scale = 1.0)` over
 `id.unshifted = initial − c`, which (lower bound `0.0`) is in turn an `ExpTransform` over
@@ -193,75 +437,51 @@ theorem unconstrain_covers_lower_bound (kvs : List (String × Json ν)) (lo : ν
     (hlo : lookup "@lower" kvs = some (.num lo)) (hup : lookup "@upper" kvs = none)
     (hpos : CliNum.pos lo = true)
     (hid : lookup "id" kvs = some (.str i)) (ht : lookup "tensor" kvs = some tensor) :
-    paramCase kvs =
+    paramCase Dispatch.reference kvs =
       (mapNum (fun y => CliNum.sub y lo) tensor).bind fun t =>
         (mapNum CliNum.log t).map fun u =>
           let xu : Json ν := .obj [("id", .str (i ++ ".unshifted" ++ ".unres")), ("type", .str "Parameter"), ("tensor", u)]
           let shifted : List (String × Json ν) :=
             [("id", .str (i ++ ".unshifted")), ("type", .str "Parameter"), ("tensor", t), ("@lower", .num CliNum.zeroF)]
-          let xs : Json ν := .obj (rewrittenAs shifted "torch.distributions.ExpTransform" xu [])
+          let xs : Json ν := .obj (rewrittenAs shifted expName xu [])
           ⟨.obj (delKey "tensor" (setKey "x" xs
               (setKey "parameters" (.obj [("loc", .num lo), ("scale", .num CliNum.oneF)])
-                (setKey "transform" (.str "torch.distributions.AffineTransform")
+                (setKey "transform" (.str affineName)
                   (setKey "type" (.str "TransformedParameter") kvs))))),
            [xu], [.str (i ++ ".unshifted")]⟩ := by
   simp only [paramCase, hlo, hup, hpos, if_true, affineCase, idPlus, hid, ht]
   cases h1 : mapNum (fun y => CliNum.sub y lo) tensor with
-  | none => simp [h1, bind, Option.bind]
+  | none => simp [h1, Dispatch.reference, Option.bind]
   | some t =>
-    simp only [h1, bind, Option.bind, expCase, childOf, idPlus, lookup, hasKey]
-    cases h2 : mapNum CliNum.log t with
-    | none =>
-      cases t <;> simp_all [bind, Option.bind, pure, lookup, hasKey]
-    | some u =>
-      cases t <;> simp_all [bind, Option.bind, pure, lookup, hasKey]
+    simp only [h1, Option.bind, expCase, childOf, idPlus, lookup, hasKey, Dispatch.reference, elemInv_exp]
+    cases h2 : mapNum CliNum.log t <;>
+      cases t <;> simp_all [bind, Option.bind, pure, lookup, hasKey, Dispatch.reference]
 
 /-- **fixed** parameters (`@lower == @upper`, not the unit interval) are left untouched and are NOT
 handed to the sampler. -/
-theorem unconstrain_fixed_untouched (kvs : List (String × Json ν)) (lo up : ν)
-    (hlo : lookup "@lower" kvs = some (.num lo)) (hup : lookup "@upper" kvs = some (.num up))
-    (hunit : (CliNum.isZero lo && CliNum.isOne up) = false) (heq : CliNum.eq lo up = true) :
-    paramCase kvs = some ⟨.obj kvs, [], []⟩ := by
+theorem unconstrain_fixed_untouched (d : Dispatch) (kvs : List (String × Json ν)) (lo up : Json ν)
+    (hlo : lookup "@lower" kvs = some lo) (hup : lookup "@upper" kvs = some up)
+    (hunit : (isLo0 lo && isUp1 up) = false) (heq : sameBound lo up = true) :
+    paramCase d kvs = some ⟨.obj kvs, [], []⟩ := by
   simp [paramCase, hlo, hup, hunit, heq]
 
 /-- an interval other than (0,1) is refused (`NotImplementedError`) rather than mis-translated -/
-theorem unconstrain_other_interval_refused (kvs : List (String × Json ν)) (lo up : ν)
-    (hlo : lookup "@lower" kvs = some (.num lo)) (hup : lookup "@upper" kvs = some (.num up))
-    (hunit : (CliNum.isZero lo && CliNum.isOne up) = false) (hne : CliNum.eq lo up = false) :
-    paramCase kvs = none := by
+theorem unconstrain_other_interval_refused (d : Dispatch) (kvs : List (String × Json ν)) (lo up : Json ν)
+    (hlo : lookup "@lower" kvs = some lo) (hup : lookup "@upper" kvs = some up)
+    (hunit : (isLo0 lo && isUp1 up) = false) (hne : sameBound lo up = false) :
+    paramCase d kvs = none := by
   simp [paramCase, hlo, hup, hunit, hne]
 
 /-- an unannotated parameter is handed to the sampler as it is -/
-theorem unconstrain_plain (kvs : List (String × Json ν)) (i : Json ν)
-    (hlo : lookup "@lower" kvs = none) (hs : lookup "@simplex" kvs = none)
+theorem unconstrain_plain (d : Dispatch) (kvs : List (String × Json ν)) (i : Json ν)
+    (hlo : lookup "@lower" kvs = none) (hs : simplexFlag kvs = false)
     (hid : lookup "id" kvs = some i) :
-    paramCase kvs = some ⟨.obj kvs, [.obj kvs], [i]⟩ := by
+    paramCase d kvs = some ⟨.obj kvs, [.obj kvs], [i]⟩ := by
   simp [paramCase, hlo, hs, hid]
 
-/-- everything that is not a `Parameter` dict is traversed (lists element-wise, dicts value-wise,
-at any depth), and the reported lists are the concatenation of the parts' lists in document order -/
-theorem unconstrain_traverses_list (x : Json ν) (xs : List (Json ν)) :
-    makeUnconstrained (.arr (x :: xs)) =
-      match makeUnconstrained x, makeUnconstrained (.arr xs) with
-      | some r, some rs =>
-        (match rs.json with
-         | .arr ys => some ⟨.arr (r.json :: ys), r.unres ++ rs.unres, r.params ++ rs.params⟩
-         | _ => none)
-      | _, _ => none := by
-  simp only [makeUnconstrained, muList]
-  cases makeUnconstrained x <;> cases muList xs <;> simp [Option.map]
-
-/-- a dict that is not a `Parameter` is rewritten value by value (whatever its keys), a `Parameter`
-dict is handled by the case analysis above and NOT descended into -/
-theorem unconstrain_traverses_dict (kvs : List (String × Json ν)) :
-    makeUnconstrained (.obj kvs) =
-      if strIs "Parameter" (lookup "type" kvs) then paramCase kvs
-      else (muFields kvs).map fun (ys, u, p) => ⟨.obj ys, u, p⟩ := by
-  simp [makeUnconstrained]
-
-/-- non-vacuity: the three annotation kinds in one nested specification (toy numbers: log/logit
-are the identity, so only the bookkeeping is visible) -/
-example : (match makeUnconstrained (ν := Int)
+/-- non-vacuity: the annotation kinds in one nested specification (toy numbers: log/logit are the
+identity, so only the bookkeeping is visible) -/
+example : (match makeUnconstrained (ν := Int) TTGen.C19.unconstrain
     (.arr [.obj [("id", .str "m"), ("type", .str "Model"),
       ("a", .obj [("id", .str "p"), ("type", .str "Parameter"), ("tensor", .arr [.num 5]), ("@lower", .num 0)]),
       ("b", .arr [.obj [("id", .str "q"), ("type", .str "Parameter"), ("tensor", .arr [.num 2]),
@@ -271,5 +491,27 @@ example : (match makeUnconstrained (ν := Int)
     | some ⟨_, [_, _], [.str "p", .str "q"]⟩ => true
     | _ => false) = true := by
   decide +kernel
+
+/-! ## create_meanfield (default family): the rewriting of the joint -/
+
+/-- **meanfield_covers** (one statement over the Json tree): if the rewriting `create_meanfield`
+performs returns, the joint afterwards is the joint before with every reached `Parameter` literal
+replaced by its `mfParam` image; the image of a literal to which a row of the meanfield table
+applies is a `TransformedParameter` with that row's transform over a child, every other literal is
+left as it is. -/
+theorem meanfield_covers (m : Dispatch) (j j' : Json ν) (h : meanfieldRewrite m j = some j') :
+    j' = mapTop (mfJson m) j ∧
+    ∀ kvs ∈ topParams j, ∃ img, mfParam m kvs = some img ∧ mfJson m kvs = img ∧
+      (∀ row, mfRowOf m kvs = some row → IsTransformed row img) ∧
+      (mfRowOf m kvs = none → img = .obj kvs) := by
+  have hg := meanfieldRewrite_global m j j' h
+  refine ⟨hg.2, ?_⟩
+  intro kvs hk
+  have hs := hg.1 kvs hk
+  cases hp : mfParam m kvs with
+  | none => simp [hp] at hs
+  | some img =>
+    exact ⟨img, rfl, by simp [mfJson, hp], fun row hr => mfParam_covers m kvs img row hp hr,
+      fun hr => mfParam_untouched m kvs img hp hr⟩
 
 end TTProps.C19
